@@ -136,10 +136,32 @@ func zzC12_tcp_response() {
 	cc := zzNewTCPConn(nc, nil, 1024)
 	a := &zzTCall{token: message.Token{0xA1, 0xA2}}
 	tag := symU8("tag")
-	go zzTDo(cc, a)
+	// the request is an ordinary GET answered by 2.05, or a Ping signal sent through Do and answered by a Pong
+	signal := symChoose("request-is-ping-signal", 2) == 1
+	if signal {
+		symCover("ping-through-do")
+		go func() {
+			req := pool.NewMessage(context.Background())
+			req.SetCode(codes.Ping)
+			req.SetToken(a.token)
+			a.resp, a.err = cc.Do(req)
+			if a.err == nil && a.resp != nil {
+				a.tok = a.resp.Token()
+				a.body, _ = a.resp.ReadBody()
+			}
+			a.done = true
+		}()
+	} else {
+		go zzTDo(cc, a)
+	}
 	symWaitUntil(func() bool { return len(nc.frames) >= 1 })
-	_ = zzFeed(cc, zzMkFrame(codes.Content, a.token, []byte{tag}))
+	if signal {
+		_ = zzFeed(cc, zzMkFrame(codes.Pong, a.token, []byte{tag}))
+	} else {
+		_ = zzFeed(cc, zzMkFrame(codes.Content, a.token, []byte{tag}))
+	}
 	symWaitUntil(func() bool { return a.done })
+	symIdle()
 	symAssert(a.err == nil && a.resp != nil, "answered")
 	if a.resp == nil {
 		return
